@@ -25,7 +25,7 @@ import (
 func init() {
 	core.Register(&core.Property{
 		ID:   "C14",
-		Rule: "strings over {a, B, é(2-byte), €(3-byte), 😀(4-byte), U+0301 combining, space, quote}: exhaustive up to length 4 (quick: 3 over 6 symbols) plus seeded random up to length 12; for each: length, toChars, upper, lower; substring for all start in [-2,len+2] x length in {omitted,-1..len+2, MaxInt32, MinInt32}; indexOf/startsWith/endsWith/contains/replace for all substrings, near-misses and ''; receivers as System strings, FHIR string/code/id/markdown/uri elements and literals; compared with a rune-based reference; all returned strings checked for valid UTF-8; the four laws of the statement. xhtml carrier, U+FFFD / regex metacharacters / $-templates in the alphabets, the receiver read several times through one carrier; distinct_nontrivial = distinct (function, string, arguments) cases with a non-ASCII receiver or pattern",
+		Rule: "strings over {a, B, é(2-byte), €(3-byte), 😀(4-byte), U+0301 combining, space, quote}: exhaustive up to length 4 (quick: 3 over 6 symbols) plus seeded random up to length 12; for each: length, toChars, upper, lower; substring for all start in [-2,len+2] x length in {omitted,-1..len+2, MaxInt32, MinInt32}; indexOf/startsWith/endsWith/contains/replace for all substrings, near-misses and ''; receivers as System strings, FHIR string/code/id/markdown/uri elements and literals; compared with a rune-based reference; all returned strings checked for valid UTF-8; the four laws of the statement. one character on either side of every UTF-8 length / lead-byte boundary (U+0080, U+07FF, U+0800, U+0FFF, U+1000, U+D7FF, U+E000, U+10000, U+40000, U+100000, U+10FFFD) alone and between others; xhtml carrier, U+FFFD / regex metacharacters / $-templates in the alphabets, the receiver read several times through one carrier; distinct_nontrivial = distinct (function, string, arguments) cases with a non-ASCII receiver or pattern",
 		Assumptions: []string{"a negative substring length is not constrained beyond totality and UTF-8 validity; length 0 may be '' or empty",
 			"upper/lower are compared with per-rune Unicode simple case mapping"},
 		Run:    runC14,
@@ -327,8 +327,14 @@ func c14Strings(env *core.Env) []string {
 		out = append(out, next...)
 		level = next
 	}
+	// one character on either side of every UTF-8 length / lead-byte boundary (0xC2, 0xDF | 0xE0, 0xE1, 0xED, 0xEE | 0xF0, 0xF1, 0xF3, 0xF4)
+	edges := []string{"\u0080", "\u07FF", "\u0800", "\u0939", "\u0E01", "\u0FFF", "\u1000", "\uD7FF", "\uE000", "\U00010000", "\U0003FFFD", "\U00040000", "\U00100000", "\U0010FFFD"}
+	for _, b := range edges {
+		out = append(out, b, "a"+b, b+"a", b+b, "é"+b+"€")
+	}
 	rng := env.Rng("strings")
 	wide := []string{"a", "b", "c", "Z", "0", " ", "'", "\"", "`", "\\", "/", "é", "ß", "€", "😀", "́", "İ", "ǆ", "\uFFFD", "$", "1", "{", "}", ".", "*", "(", "[", "^", "ı", "ſ", "K"}
+	wide = append(wide, edges...)
 	for k := 0; k < env.Size(120, 3000); k++ {
 		n := 5 + rng.Intn(8)
 		var b strings.Builder
